@@ -56,8 +56,9 @@ class C18(Prop):
         for pid in ("C16", "C14", "C20", "C15", "C09", "C08"):
             p = REGISTRY.get(pid)
             if p:
-                gs = [g for g in p.gens if "iter" in g.__name__] if pid == "C16" else list(p.gens)
-                out += [g if pid in ("C16", "C14", "C20") else _sample(g, 150, 3000) for g in gs]
+                # (C16: the record-history generators in full, the others sampled — a Rich area that the
+                # parser must reject, e.g. an odd number of dwords, is what keeps next/next_back paired)
+                out += [g if pid in ("C14", "C20") or (pid == "C16" and "iter" in g.__name__) else _sample(g, 150, 3000) for g in p.gens]
         return out
 
     def judge(self, op, impl, model, spec):
